@@ -50,3 +50,8 @@ func VerifReadAll(w Wal) (first int64, lastAppended int64, lastSynced int64, ent
 	}
 	return first, lastAppended, lastSynced, entries, nil
 }
+
+// VerifSyncQueueLen returns the number of sync requests waiting behind the round in progress.
+func VerifSyncQueueLen(w Wal) int {
+	return len(w.(*wal).syncRequests)
+}
